@@ -22,6 +22,7 @@ EXPLANATION = (
     "feeds node/edge emission iterates a sorted() view of set-typed adjacencies. Truncation "
     "semantics and the derivation of the relation from source (C06-C08) are not decided."
     ' R6: the project-wide graphs are rooted at every module/type/procedure, and file dependencies use the recursive closure; correlation order is shared with C06.R3.'
+    " Added after waves 6/7 - per-entity graph limits are inherited from their project-wide namesakes. Relations, orientation, queueing and guards of add_node are derived by element provenance (sa/graphsum.py), independent of loop structure."
 )
 ASSUMPTIONS = ["graphviz's own output is out of scope", "adjacency containers are the attributes initialised as set()/{} in the node constructors"]
 
